@@ -24,6 +24,7 @@ import (
 	"fmt"
 	"os"
 	"os/exec"
+	"reflect"
 	"regexp"
 	"sort"
 	"strings"
@@ -182,7 +183,81 @@ func c41Stress(t *testing.T, seed uint64) {
 			}
 		}
 	}
-	fmt.Printf("C41-STRESS-DONE appended=%d\n", len(assigned))
+	cold := c41ColdBursts(seed, vN(240, 1200))
+	fmt.Printf("C41-STRESS-DONE appended=%d cold_bursts=%d\n", len(assigned), cold)
+}
+
+// c41ColdBursts: many short bursts that START concurrent operations on a log in each
+// "cold" state, with no sequential warm-up: (0) a log just rebuilt by RestoreFromS3
+// over a seeded bucket -- overlapping first Reads || first Append+Flush || prefetch;
+// (1) a freshly constructed empty log -- first Appends || Flush || Read; (2) a restored
+// log hit only by overlapping first fetches.  Lazy initialisation on first use (a
+// memoised key, a map created on demand, ...) races exactly here.
+func c41ColdBursts(seed uint64, iters int) int {
+	ctx := context.Background()
+	r := vNewRand(seed ^ 0xc01d)
+	n := 0
+	for it := 0; it < iters; it++ {
+		s3 := NewMemoryS3Client()
+		sc := cache.NewSegmentCache(4000)
+		sem := semaphore.NewWeighted(4)
+		cfg := PartitionLogConfig{Buffer: WriteBufferConfig{MaxBatches: 1}, Segment: SegmentWriterConfig{IndexIntervalMessages: 1}, ReadAheadSegments: 2, CacheEnabled: true}
+		mode := it % 3
+		if mode != 1 {
+			// seed the bucket through a throw-away log (3-4 one-batch segments)
+			seedLog := NewPartitionLog("ns", "cold", 0, 0, s3, nil, PartitionLogConfig{Buffer: WriteBufferConfig{MaxBatches: 1}, Segment: SegmentWriterConfig{IndexIntervalMessages: 1}}, nil, nil, nil)
+			for j := 0; j < 3+r.Intn(2); j++ {
+				_, _ = seedLog.AppendBatch(ctx, c41Batch(uint32(j), 2))
+				_ = seedLog.Flush(ctx)
+			}
+		}
+		l := NewPartitionLog("ns", "cold", 0, 0, s3, sc, cfg, func(context.Context, *SegmentArtifact) {}, func(string, time.Duration, error) {}, sem)
+		if mode != 1 {
+			if _, err := l.RestoreFromS3(ctx); err != nil {
+				fmt.Printf("C41-INVARIANT: cold restore: %v\n", err)
+				continue
+			}
+		}
+		start := make(chan struct{})
+		var wg sync.WaitGroup
+		run := func(f func()) {
+			wg.Add(1)
+			go func() { defer wg.Done(); <-start; f() }()
+		}
+		read := func(off int64) func() {
+			return func() {
+				d, _ := l.Read(ctx, off, 4096)
+				x := 0
+				for _, b := range d {
+					x += int(b)
+				}
+				_ = x
+			}
+		}
+		switch mode {
+		case 0:
+			run(read(0))
+			run(read(2))
+			run(read(int64(r.Intn(6))))
+			run(func() { _, _ = l.AppendBatch(ctx, c41Batch(99, 2)); _ = l.Flush(ctx) })
+			run(func() { _ = l.Flush(ctx) })
+		case 1:
+			run(func() { _, _ = l.AppendBatch(ctx, c41Batch(1, 2)) })
+			run(func() { _, _ = l.AppendBatch(ctx, c41Batch(2, 1)); _ = l.Flush(ctx) })
+			run(func() { _ = l.Flush(ctx) })
+			run(read(0))
+			run(func() { _ = l.BufferedHighWatermark(); _ = l.EarliestOffset() })
+		case 2:
+			for k := 0; k < 4; k++ {
+				run(read(int64(r.Intn(6))))
+			}
+		}
+		close(start)
+		wg.Wait()
+		n++
+	}
+	time.Sleep(20 * time.Millisecond)
+	return n
 }
 
 var c41Frame = regexp.MustCompile(`^\s+(?:github\.com/KafScale/platform/)?([\w./()*\-]+)\(`)
@@ -217,6 +292,41 @@ func c41ParseRaces(out string) (reports []string, keys []string) {
 		keys = append(keys, "race:"+strings.Join(tops, "|"))
 	}
 	return
+}
+
+// c41FieldCase lists the struct's fields by reflection, compares them with the names
+// annotated in model/Lockset.v (read as text, only to name the offending field in the
+// failure; the authoritative comparison is corr/LocksetCorr.v check_fields) and
+// returns the Coq case.
+func c41FieldCase(rep *vReport, name string, typ reflect.Type) (string, string) {
+	var fields []string
+	for i := 0; i < typ.NumField(); i++ {
+		fields = append(fields, typ.Field(i).Name)
+	}
+	if src, err := os.ReadFile(os.Getenv("VERIF_DIR") + "/coq/theories/model/Lockset.v"); err == nil {
+		annotated := map[string]bool{}
+		for _, m := range regexp.MustCompile(`\("`+name+`", "(\w+)", G\w+\)`).FindAllStringSubmatch(string(src), -1) {
+			annotated[m[1]] = true
+		}
+		if len(annotated) > 0 {
+			for _, f := range fields {
+				if !annotated[f] {
+					rep.Fail("annotation", "unannotated-field:"+name+"."+f, fmt.Sprintf("%s.%s is not in the lockset model's field table: a field written after construction outside a lock is an unannotated shared location (say which lock guards it, or that it is immutable after construction)", name, f), map[string]any{"struct": name, "field": f})
+				}
+				delete(annotated, f)
+			}
+			for f := range annotated {
+				rep.Fail("annotation", "stale-annotation:"+name+"."+f, fmt.Sprintf("the lockset model annotates %s.%s, which the code no longer has", name, f), map[string]any{"struct": name, "field": f})
+			}
+		}
+	}
+	q := make([]string, len(fields))
+	for i, f := range fields {
+		q[i] = "\"" + f + "\"%string"
+	}
+	js, _ := json.Marshal(map[string]any{"struct": name, "fields": fields})
+	rep.Hist("fields:" + name)
+	return fmt.Sprintf("mkF \"%s\"%%string %s", name, cqList(q)), string(js)
 }
 
 // ---------------------------------------------------------------- (2) sequential schedules
@@ -511,8 +621,8 @@ func TestVerifC41(t *testing.T) {
 		reports, keys := c41ParseRaces(out)
 		rep.Count(fmt.Sprintf("stress-%d", seed), done)
 		rep.Hist("stress-runs")
-		if m := regexp.MustCompile(`C41-STRESS-DONE appended=(\d+)`).FindStringSubmatch(out); m != nil {
-			rep.Sample(map[string]any{"stress_seed": seed, "records_appended": m[1], "races": len(reports)})
+		if m := regexp.MustCompile(`C41-STRESS-DONE appended=(\d+) cold_bursts=(\d+)`).FindStringSubmatch(out); m != nil {
+			rep.Sample(map[string]any{"stress_seed": seed, "records_appended": m[1], "cold_start_bursts": m[2], "races": len(reports)})
 		}
 		for j, rp := range reports {
 			if len(rp) > 6000 {
@@ -571,6 +681,19 @@ func TestVerifC41(t *testing.T) {
 		}
 	}
 	rep.Cases("C41", "From KS Require Import lib.Base lib.Strings model.Cache model.Lockset corr.LocksetCorr.", "case", "check_case", coq, jsons)
+	// (3) every field of the structs on the data path must be annotated in the model's
+	// field table (model/Lockset.v field_table): a field added to the code is a new,
+	// unannotated shared location until someone says which lock guards it
+	var fcoq, fjs []string
+	for _, st := range []struct {
+		name string
+		typ  reflect.Type
+	}{{"PartitionLog", reflect.TypeOf(PartitionLog{})}, {"WriteBuffer", reflect.TypeOf(WriteBuffer{})}, {"SegmentCache", reflect.TypeOf(cache.SegmentCache{})}} {
+		c, j := c41FieldCase(rep, st.name, st.typ)
+		fcoq = append(fcoq, c)
+		fjs = append(fjs, j)
+	}
+	rep.Cases("C41_fields", "From Coq Require Import String.\nFrom KS Require Import lib.Base model.Lockset corr.LocksetCorr.", "fcase", "check_fields", fcoq, fjs)
 	rep.Write()
 	if len(rep.Failures) > 0 {
 		t.Logf("oracle failures: %s", strings.TrimSpace(rep.Failures[0].What))
